@@ -97,10 +97,10 @@ theorem Step.er_none {α β : Type} {f : α → β} {r : Step α} (h : r.er f = 
 theorem Builder.erase_eq_iff (b b' : Builder) : b.erase = b'.erase ↔
     b.env = b'.env ∧ b.cur = b'.cur ∧ b.parents = b'.parents ∧ b.nsStack = b'.nsStack ∧
     b.eb.map ElementBuilder.erase = b'.eb.map ElementBuilder.erase ∧
-    b.seenIds = b'.seenIds ∧ b.idNodes = b'.idNodes := by
-  obtain ⟨a1, a2, a3, a4, a5, a6, a7, a8⟩ := b
-  obtain ⟨b1, b2, b3, b4, b5, b6, b7, b8⟩ := b'
-  simp only [Builder.erase, Builder.mk.injEq, and_true]
+    b.seenIds = b'.seenIds ∧ b.idNodes = b'.idNodes ∧ b.openPrefixes = b'.openPrefixes := by
+  obtain ⟨a1, a2, a3, a4, a5, a6, a7, a8, a9⟩ := b
+  obtain ⟨b1, b2, b3, b4, b5, b6, b7, b8, b9⟩ := b'
+  simp only [Builder.erase, Builder.mk.injEq, true_and]
 
 theorem ElementBuilder.erase_eq_iff (e e' : ElementBuilder) : e.erase = e'.erase ↔
     e.pfx = e'.pfx ∧ e.name = e'.name ∧ e.namespaces = e'.namespaces ∧
@@ -126,7 +126,7 @@ theorem eb_erase_cases {o o' : Option ElementBuilder}
 theorem prefix_erase {b b' : Builder} (hb : b.erase = b'.erase) (pfx : Str) {uri uri' : StrSpan}
     (hu : uri.text = uri'.text) (sp sp' : Span) :
     (b.prefix pfx uri sp).er Builder.erase = (b'.prefix pfx uri' sp').er Builder.erase := by
-  obtain ⟨h1, h2, h3, h4, h5, h6, h7⟩ := (Builder.erase_eq_iff b b').1 hb
+  obtain ⟨h1, h2, h3, h4, h5, h6, h7, h8⟩ := (Builder.erase_eq_iff b b').1 hb
   unfold Builder.prefix
   rw [← hu]
   rcases parseContentGo_cases true uri.start uri'.start 0 0 uri.text with ⟨e, e', p1, p2⟩ | ⟨v, p1, p2⟩
@@ -143,7 +143,7 @@ theorem prefix_erase {b b' : Builder} (hb : b.erase = b'.erase) (pfx : Str) {uri
       · simp only [Step.er_ok, Option.some.injEq]
         rw [Builder.erase_eq_iff]
         simp only [Option.map_some, Option.some.injEq, ElementBuilder.erase_eq_iff]
-        exact ⟨trivial, h2, h3, h4, ⟨r1, r2, trivial, r4⟩, h6, h7⟩
+        exact ⟨trivial, h2, h3, h4, ⟨r1, r2, trivial, r4⟩, h6, h7, h8⟩
 
 theorem any_attr_erase (l : List AttributeBuilder) (x y : Str) :
     l.any (fun ab => ab.pfx == x && ab.name == y) =
@@ -154,7 +154,7 @@ theorem attribute_erase {b b' : Builder} (hb : b.erase = b'.erase)
     {pfx pfx' loc loc' value value' : StrSpan}
     (hp : pfx.text = pfx'.text) (hl : loc.text = loc'.text) (hv : value.text = value'.text) :
     (b.attribute pfx loc value).er Builder.erase = (b'.attribute pfx' loc' value').er Builder.erase := by
-  obtain ⟨h1, h2, h3, h4, h5, h6, h7⟩ := (Builder.erase_eq_iff b b').1 hb
+  obtain ⟨h1, h2, h3, h4, h5, h6, h7, h8⟩ := (Builder.erase_eq_iff b b').1 hb
   unfold Builder.attribute
   rcases eb_erase_cases h5 with ⟨q1, q2⟩ | ⟨e, e', q1, q2, q3⟩
   · rw [q1, q2]
@@ -172,7 +172,7 @@ theorem attribute_erase {b b' : Builder} (hb : b.erase = b'.erase)
         rw [Builder.erase_eq_iff]
         simp only [Option.map_some, Option.some.injEq, ElementBuilder.erase_eq_iff, List.map_append,
           List.map_cons, List.map_nil, r4]
-        exact ⟨h1, h2, h3, h4, ⟨r1, r2, r3, rfl⟩, h6, h7⟩
+        exact ⟨h1, h2, h3, h4, ⟨r1, r2, r3, rfl⟩, h6, h7, h8⟩
 
 /-- Forget `attribute_spans`. -/
 def AttrLoop.erase (st : AttrLoop) : AttrLoop := { st with aspans := [] }
@@ -246,7 +246,7 @@ theorem curPath_congr {b b' : Builder} (h : b.parents = b'.parents) : b.curPath 
 
 theorem openElement_erase {b b' : Builder} (hb : b.erase = b'.erase) :
     b.openElement.er Builder.erase = b'.openElement.er Builder.erase := by
-  obtain ⟨h1, h2, h3, h4, h5, h6, h7⟩ := (Builder.erase_eq_iff b b').1 hb
+  obtain ⟨h1, h2, h3, h4, h5, h6, h7, h8⟩ := (Builder.erase_eq_iff b b').1 hb
   unfold Builder.openElement
   rcases eb_erase_cases h5 with ⟨q1, q2⟩ | ⟨e, e', q1, q2, q3⟩
   · rw [q1, q2]
@@ -270,15 +270,15 @@ theorem openElement_erase {b b' : Builder} (hb : b.erase = b'.erase) :
         obtain ⟨t1, t2, t3, t4, t5⟩ := (AttrLoop.erase_eq_iff st st').1 s3
         simp only [Step.er_ok, Option.some.injEq]
         rw [Builder.erase_eq_iff]
-        simp only [t1, t2, t3, t5, h3, Option.map_none, and_self]
+        simp only [t1, t2, t3, t5, h3, h8, r1, Option.map_none, and_self]
     · rw [p1, p2]; rfl
 
 theorem addText_erase {b b' : Builder} (hb : b.erase = b'.erase) (c : Str) :
     (b.addText c).1.erase = (b'.addText c).1.erase := by
-  obtain ⟨h1, h2, h3, h4, h5, h6, h7⟩ := (Builder.erase_eq_iff b b').1 hb
+  obtain ⟨h1, h2, h3, h4, h5, h6, h7, h8⟩ := (Builder.erase_eq_iff b b').1 hb
   unfold Builder.addText
   rw [← h2]
-  split <;> (rw [Builder.erase_eq_iff]; exact ⟨h1, rfl, h3, h4, h5, h6, h7⟩)
+  split <;> (rw [Builder.erase_eq_iff]; exact ⟨h1, rfl, h3, h4, h5, h6, h7, h8⟩)
 
 theorem text_erase {b b' : Builder} (hb : b.erase = b'.erase) {t t' : StrSpan} (ht : t.text = t'.text) :
     (b.text t).er Builder.erase = (b'.text t').er Builder.erase := by
@@ -301,14 +301,14 @@ theorem cdata_erase {b b' : Builder} (hb : b.erase = b'.erase) {t t' : StrSpan} 
 
 theorem toParent_erase {b b' : Builder} (hb : b.erase = b'.erase) :
     b.toParent.er Builder.erase = b'.toParent.er Builder.erase := by
-  obtain ⟨h1, h2, h3, h4, h5, h6, h7⟩ := (Builder.erase_eq_iff b b').1 hb
+  obtain ⟨h1, h2, h3, h4, h5, h6, h7, h8⟩ := (Builder.erase_eq_iff b b').1 hb
   unfold Builder.toParent
   rw [← h3, ← h2]
   split
   · rfl
   · simp only [Step.er_ok, Option.some.injEq]
     rw [Builder.erase_eq_iff]
-    exact ⟨h1, rfl, rfl, h4, h5, h6, h7⟩
+    exact ⟨h1, rfl, rfl, h4, h5, h6, h7, h8⟩
 
 theorem leave_erase {b b' : Builder} (hb : b.erase = b'.erase) (node node' : Path) (sp sp' : StrSpan) :
     (b.leave node sp).er Builder.erase = (b'.leave node' sp').er Builder.erase := by
@@ -323,20 +323,20 @@ theorem leave_erase {b b' : Builder} (hb : b.erase = b'.erase) (node node' : Pat
 
 theorem closeImmediate_erase {b b' : Builder} (hb : b.erase = b'.erase) (sp sp' : StrSpan) :
     (b.closeImmediate sp).er Builder.erase = (b'.closeImmediate sp').er Builder.erase := by
-  obtain ⟨h1, h2, h3, h4, h5, h6, h7⟩ := (Builder.erase_eq_iff b b').1 hb
+  obtain ⟨h1, h2, h3, h4, h5, h6, h7, h8⟩ := (Builder.erase_eq_iff b b').1 hb
   unfold Builder.closeImmediate
   apply leave_erase
   rw [← h2]
   split
-  · rw [Builder.erase_eq_iff]; exact ⟨h1, rfl, h3, by simp only [h4], h5, h6, h7⟩
+  · rw [Builder.erase_eq_iff]; exact ⟨h1, rfl, h3, by simp only [h4], h5, h6, h7, by simp only [h8]⟩
   · exact hb
 
 theorem closeElement_erase {b b' : Builder} (hb : b.erase = b'.erase) {pfx pfx' loc loc' : StrSpan}
     (hp : pfx.text = pfx'.text) (hl : loc.text = loc'.text) (sp sp' : StrSpan) :
     (b.closeElement pfx loc sp).er Builder.erase = (b'.closeElement pfx' loc' sp').er Builder.erase := by
-  obtain ⟨h1, h2, h3, h4, h5, h6, h7⟩ := (Builder.erase_eq_iff b b').1 hb
+  obtain ⟨h1, h2, h3, h4, h5, h6, h7, h8⟩ := (Builder.erase_eq_iff b b').1 hb
   unfold Builder.closeElement
-  rw [← h1, ← h4, ← hp, ← hl, ← h3, ← h2]
+  rw [← h1, ← h4, ← hp, ← hl, ← h3, ← h2, ← h8]
   rcases elementNameId_er b.env b.nsStack pfx.text loc.text pfx.span pfx'.span with
     ⟨⟨env1, nameId⟩, p1, p2⟩ | ⟨x, x', v, p1, p2⟩
   · rw [p1, p2]
@@ -347,34 +347,34 @@ theorem closeElement_erase {b b' : Builder} (hb : b.erase = b'.erase) {pfx pfx' 
       · split
         · rfl
         · apply leave_erase
-          rw [Builder.erase_eq_iff]; exact ⟨rfl, rfl, rfl, rfl, h5, h6, h7⟩
+          rw [Builder.erase_eq_iff]; exact ⟨rfl, rfl, rfl, rfl, h5, h6, h7, rfl⟩
       · apply leave_erase
-        rw [Builder.erase_eq_iff]; exact ⟨rfl, rfl, rfl, rfl, h5, h6, h7⟩
+        rw [Builder.erase_eq_iff]; exact ⟨rfl, rfl, rfl, rfl, h5, h6, h7, rfl⟩
   · rw [p1, p2]; rfl
 
 theorem element_erase {b b' : Builder} (hb : b.erase = b'.erase) {pfx pfx' loc loc' : StrSpan}
     (hp : pfx.text = pfx'.text) (hl : loc.text = loc'.text) :
     (b.element pfx loc).erase = (b'.element pfx' loc').erase := by
-  obtain ⟨h1, h2, h3, h4, h5, h6, h7⟩ := (Builder.erase_eq_iff b b').1 hb
+  obtain ⟨h1, h2, h3, h4, h5, h6, h7, h8⟩ := (Builder.erase_eq_iff b b').1 hb
   rw [Builder.erase_eq_iff]
-  refine ⟨h1, h2, h3, h4, ?_, h6, h7⟩
+  refine ⟨h1, h2, h3, h4, ?_, h6, h7, h8⟩
   simp only [Builder.element, Option.map_some, Option.some.injEq, ElementBuilder.erase_eq_iff,
     ElementBuilder.new, hp, hl, List.map_nil, and_self]
 
 theorem comment_erase {b b' : Builder} (hb : b.erase = b'.erase) {t t' : StrSpan} (ht : t.text = t'.text) :
     (b.comment t).erase = (b'.comment t').erase := by
-  obtain ⟨h1, h2, h3, h4, h5, h6, h7⟩ := (Builder.erase_eq_iff b b').1 hb
+  obtain ⟨h1, h2, h3, h4, h5, h6, h7, h8⟩ := (Builder.erase_eq_iff b b').1 hb
   rw [Builder.erase_eq_iff]
   simp only [Builder.comment, Builder.addLeaf, ht, h2]
-  exact ⟨h1, trivial, h3, h4, h5, h6, h7⟩
+  exact ⟨h1, trivial, h3, h4, h5, h6, h7, h8⟩
 
 theorem pi_erase {b b' : Builder} (hb : b.erase = b'.erase) {t t' : StrSpan} (ht : t.text = t'.text)
     {c c' : Option StrSpan} (hc : c.map (fun x => x.text) = c'.map (fun x => x.text)) :
     (b.processingInstruction t c).erase = (b'.processingInstruction t' c').erase := by
-  obtain ⟨h1, h2, h3, h4, h5, h6, h7⟩ := (Builder.erase_eq_iff b b').1 hb
+  obtain ⟨h1, h2, h3, h4, h5, h6, h7, h8⟩ := (Builder.erase_eq_iff b b').1 hb
   rw [Builder.erase_eq_iff]
   simp only [Builder.processingInstruction, Builder.addLeaf, ht, h1, h2, hc]
-  exact ⟨trivial, trivial, h3, h4, h5, h6, h7⟩
+  exact ⟨trivial, trivial, h3, h4, h5, h6, h7, h8⟩
 
 /-! ### One token, the token loop -/
 
@@ -440,7 +440,7 @@ theorem run_erase : ∀ (ts ts' : List Token) (b b' : Builder) (le le' : Option 
     | nil =>
       cases le <;> cases le' <;> simp at hle
       · simp only [Builder.run]
-        obtain ⟨h1, h2, h3, h4, h5, h6, h7⟩ := (Builder.erase_eq_iff b b').1 hb
+        obtain ⟨h1, h2, h3, h4, h5, h6, h7, h8⟩ := (Builder.erase_eq_iff b b').1 hb
         rcases eb_erase_cases h5 with ⟨q1, q2⟩ | ⟨e, e', q1, q2, q3⟩
         · rw [q1, q2]; simp only [Step.er_ok, hb]
         · rw [q1, q2]; rfl
@@ -496,12 +496,12 @@ theorem unclosed_okPart (b : Builder) : b.unclosed.okPart = none := by
 
 theorem parsed_okPart {b b' : Builder} (hb : b.erase = b'.erase) :
     (BuildResult.ok b.parsed).okPart = (BuildResult.ok b'.parsed).okPart := by
-  obtain ⟨h1, h2, h3, h4, h5, h6, h7⟩ := (Builder.erase_eq_iff b b').1 hb
+  obtain ⟨h1, h2, h3, h4, h5, h6, h7, h8⟩ := (Builder.erase_eq_iff b b').1 hb
   simp only [BuildResult.okPart, Builder.parsed, Builder.root, h1, h2, h3, h7]
 
 theorem finishFragment_erase {b b' : Builder} (hb : b.erase = b'.erase) :
     b.finishFragment.okPart = b'.finishFragment.okPart := by
-  obtain ⟨h1, h2, h3, h4, h5, h6, h7⟩ := (Builder.erase_eq_iff b b').1 hb
+  obtain ⟨h1, h2, h3, h4, h5, h6, h7, h8⟩ := (Builder.erase_eq_iff b b').1 hb
   unfold Builder.finishFragment Builder.isCurrentDocument
   rw [← h2]
   split
@@ -510,7 +510,7 @@ theorem finishFragment_erase {b b' : Builder} (hb : b.erase = b'.erase) :
 
 theorem finishDocument_erase (len len' : Nat) {b b' : Builder} (hb : b.erase = b'.erase) :
     (b.finishDocument len).okPart = (b'.finishDocument len').okPart := by
-  obtain ⟨h1, h2, h3, h4, h5, h6, h7⟩ := (Builder.erase_eq_iff b b').1 hb
+  obtain ⟨h1, h2, h3, h4, h5, h6, h7, h8⟩ := (Builder.erase_eq_iff b b').1 hb
   have hr : b'.root = b.root := by simp only [Builder.root, h2, h3]
   unfold Builder.finishDocument Builder.isCurrentDocument
   rw [← h2, hr]
